@@ -959,6 +959,10 @@ def est_ufpca(ctx, seed, method, normalize, ncomp, variant):
         if m != "InnPro":
             _, first[m] = q.call(f"{tag}.transform(data,{m})", lambda m=m: est.transform(data, method=m))
         _, first[m + "/None"] = q.call(f"{tag}.transform(None,{m})", lambda m=m: est.transform(None, method=m))
+        # ... and once more straight away (no refit in between): the same scores, and the first result is left alone
+        _, again = q.call(f"{tag}.transform(None,{m}) [repeat]", lambda m=m: est.transform(None, method=m))
+        if first[m + "/None"] is not None and again is not None:
+            q.same(f"{tag}.transform(None,{m}) repeated", first[m + "/None"], again)
     sc0 = first.get("NumInt")
     if sc0 is not None:
         scores = np.array(sc0, dtype=float).copy()
@@ -1014,6 +1018,9 @@ def est_mfpca(ctx, seed, method, normalize, kind, uni, user_weights=False):
         if m != "InnPro":
             _, first[m] = q.call(f"{tag}.transform(data,{m})", lambda m=m: est.transform(data, method=m))
         _, first[m + "/None"] = q.call(f"{tag}.transform(None,{m})", lambda m=m: est.transform(None, method=m))
+        _, again = q.call(f"{tag}.transform(None,{m}) [repeat]", lambda m=m: est.transform(None, method=m))
+        if first[m + "/None"] is not None and again is not None:
+            q.same(f"{tag}.transform(None,{m}) repeated", first[m + "/None"], again)
     if first.get("NumInt") is not None:
         scores = np.array(first["NumInt"], dtype=float).copy()
         _, inv1 = q.call(f"{tag}.inverse_transform", lambda: est.inverse_transform(scores), extra_inputs=[("scores", scores)])
